@@ -4,6 +4,7 @@ C13 — while trading is disabled nothing trades and market orders are rejected.
 import Bourse.Model.Ops
 import Bourse.Lemmas.Frame
 import Bourse.Lemmas.RefineStep
+import Bourse.Lemmas.NoOverflow
 
 namespace Bourse.Props.C13
 open Bourse
@@ -209,5 +210,11 @@ example :
   refine ⟨?_, by decide, by decide⟩
   simp only [NoFault, and_true]
   decide
+
+/-- `toggled_histories_are_reference_histories` for valid histories as the property states them. -/
+theorem toggled_histories_are_reference_histories_valid (t0 tick : Nat) (trading : Bool) (ops : List Op)
+    (h : ValidHistory t0 tick trading ops) (n : Nat) (hn : ∀ i, i < n → i * tick < P32) :
+    Book.trace n (Book.new t0 tick trading) ops = Ref.trace n (Ref.init t0 tick trading) ops :=
+  toggled_histories_are_reference_histories t0 tick trading h.tick_pos ops h.ops_valid h.noFault n hn
 
 end Bourse.Props.C13
